@@ -36,8 +36,10 @@ func SeencheckItem(item *models.Item) error {
 				source = "seed"
 			}
 
+			// Send the canonical form of the URL: it is the text the response is matched
+			// against below, and the text the URL is fetched (and marked as finished) with
 			newURL := gocrawlhq.URL{
-				Value: items[i].GetURL().Raw,
+				Value: items[i].GetURL().String(),
 				Type:  source,
 			}
 
